@@ -40,6 +40,19 @@ def setXy (nan : R) (t : Tuple R) (a b : R) : Tuple R :=
 
 def setXyz (nan : R) (t : Tuple R) (a b c : R) : Tuple R :=
   if t.dim > 2 then ⟨((t.vals.set 0 a).set 1 b).set 2 c⟩ else t.fill nan
+
+def setXyzt (nan : R) (t : Tuple R) (a b c d : R) : Tuple R :=
+  if t.dim > 3 then ⟨(((t.vals.set 0 a).set 1 b).set 2 c).set 3 d⟩ else t.fill nan
+
+/-- one round of the loop of `update` -/
+def updateStep (value : List R) (vals : List R) (i : Nat) : List R :=
+  match value[i]? with
+  | some v => vals.set i v
+  | none => vals
+
+/-- `update(&[f64])`: `for i in 0..min(value.len(), dim) { set_nth_unchecked(i, value[i]) }` -/
+def update (t : Tuple R) (value : List R) : Tuple R :=
+  ⟨(List.range (min value.length t.dim)).foldl (updateStep value) t.vals⟩
 end Tuple
 
 /-- the kinds of container elements and adapters `CoordinateSet` is implemented for -/
